@@ -334,6 +334,18 @@ DEEP_LAMBDAS = [
     "lambda {A}: {A}.so_jets.Select(lambda {B}: ({B}, {A}.i_pt)).Select(lambda {C}: {C}[0].so_trk.Select(lambda {P}: {P}.si_hits.Select(lambda {Q}: {Q} + {C}[1])))",
     "lambda {A}: {A}.so_jets.Select(lambda {B}: ({B}.so_trk, {A}.o_p)).Where(lambda {C}: {C}[0].Where(lambda {P}: {P}.so_jets.Where(lambda {Q}: {Q}.i_pt > {C}[1].i_pt).Count() > 0).Count() > 0).Count()",
     "lambda {A}: [[{Q}.i_pt + {C}[1] for {Q} in {C}[0].so_trk] for {C} in {A}.so_jets.Select(lambda {B}: ({B}, {A}.i_pt))]",
+    # method calls with keyword / positional arguments on a First() result (the backend passes move the call under the First)
+    "lambda {A}: {A}.so_jets.First().mi_e(1, k={A}.i_pt)",
+    "lambda {A}: {A}.so_jets.Select(lambda {B}: {B}.so_trk.First().mi_e(2, k={B}.i_pt) + {A}.i_eta)",
+    "lambda {A}: {A}.so_jets.Where(lambda {B}: {B}.i_pt > 1).First().mi_pt({A}.i_eta)",
+]
+
+# hand-written chains with real lambdas that capture a local: (lambda source, the two values the factory is called with)
+DEEP_CALLABLES = [
+    ("lambda e: e.i_pt if k_loc else -1", (2, 0)),
+    ("lambda e: (e.i_pt if k_loc else e.i_eta) + k_loc", (5, 1)),
+    ("lambda e: e.so_jets.Where(lambda j: j.i_pt > k_loc if k_loc else j.b_ok).Count()", (3, 0)),
+    ("lambda e: e.so_jets.Select(lambda e: e.i_pt + k_loc).Where(lambda k_loc: k_loc > 1).Count() + k_loc", (2, 7)),
 ]
 
 
@@ -345,7 +357,31 @@ def deep_cases(start, pool=("e", "j")):
         for src, _ in _gen.family_instances(t, ph, pool):
             idx = start + len(out)
             out.append(dict(build="def build_%d(ds):\n    return [ds.Select(\n        %r\n    )]\n" % (idx, src), truths=["Select(ds, %s)" % src], typed=False))
+    for src, vals in DEEP_CALLABLES:
+        idx = start + len(out)
+        build = ("def chain_%d(ds, k_loc):\n    return [ds.Select(\n        %s\n    )]\n\n\ndef build_%d(ds):\n    return chain_%d(ds, %r) + chain_%d(ds, %r)\n"
+                 % (idx, src, idx, idx, vals[0], idx, vals[1]))
+        out.append(dict(build=build, truths=["Select(ds, %s)" % _subst_free(src, "k_loc", v) for v in vals], typed=False))
     return out
+
+
+def _subst_free(src, name, value):
+    "source of the lambda with the free occurrences of `name` replaced by the constant"
+    tree = ast.parse(src, mode="eval").body
+
+    def walk(n, bound):
+        if isinstance(n, ast.Lambda):
+            b2 = bound | {a.arg for a in n.args.args}
+            return ast.Lambda(n.args, walk(n.body, b2))
+        if isinstance(n, ast.Name):
+            return ast.Constant(value) if n.id == name and n.id not in bound else n
+        for f, v in ast.iter_fields(n):
+            if isinstance(v, list):
+                setattr(n, f, [walk(x, bound) if isinstance(x, ast.AST) else x for x in v])
+            elif isinstance(v, ast.AST):
+                setattr(n, f, walk(v, bound))
+        return n
+    return ast.unparse(ast.fix_missing_locations(walk(tree, frozenset())))
 
 
 def module_text(cases_, typed):
